@@ -237,6 +237,8 @@ def h_table(f0: int, a0: int, b0: int, m0: int, k0: bool, f1: int, a1: int, b1: 
             reject_unless(m == 0)
         if "fields" in shard:
             reject_unless(f == shard["fields"][idx])
+        if "mods" in shard and f == 2:
+            reject_unless(m in shard["mods"])
         if idx > 0 and n >= 2 and shard.get("narrow_rest"):
             reject_unless((a, b) in ((0, 0), (1, 3), (2, 2)))
     reject_unless(0 <= lk <= 2 and 0 <= hd < 4 and 0 <= ft < 4)
@@ -282,6 +284,8 @@ def h_table_sym(a0: int, b0: int, a1: int, b1: int, a2: int, b2: int, nf: int, n
     maxs = [b0, b1, b2][:n]
     for a, b in zip(mins, maxs):
         reject_unless(0 <= a <= A and a <= b)
+    if "amin0" in shard:
+        reject_unless(a0 >= shard["amin0"])
     for a, b in list(zip([a0, a1, a2], [b0, b1, b2]))[n:]:
         reject_unless(a == 0 and b == 0)
     lk = shard["lk"]
@@ -351,6 +355,14 @@ def jobs(tier: str) -> List[Job]:
     for k, (cols, rs) in enumerate(two):
         js.append(Job(__name__, "h_table_sym", shard={"cols": cols, "lk": 1 if k % 2 == 0 else 0, "hf": (0, 0) if k % 3 else (3, 1), "rs": rs, "amax": 5 if t else (3 if rs not in (3, 5) else 1), **({} if (t or rs not in (3, 5)) else {"limmax": 2})},
                       budget_s=1500 if t else 100, per_path_timeout=30, label=f"sym:2col:{k}:rs{rs}"))
+    # wide tables: the 'records skipped' announcement fits, so the announced number is checked (break lines inside the visible part)
+    for k, (cols, rs) in enumerate([([(1, 0, True)], 5), ([(0, 0, True)], 3), ([(2, 3, True), (1, 0, False)], 5)]):
+        js.append(Job(__name__, "h_table_sym", shard={"cols": cols, "lk": 1, "hf": (0, 0), "rs": rs, "amin0": 24, "amax": 25, "limmax": 3}, budget_s=1500 if t else 100,
+                      per_path_timeout=30, label=f"sym:wide:{k}:rs{rs}"))
+    # the same enum field type in two columns of different widths (cached cell texts must not remember a width)
+    for rs in (2, 4):
+        js.append(Job(__name__, "h_table", shard={"ncols": 2, "W": 4, "rs": rs, "fields": [2, 2], "mods": [2, 3], "narrow_rest": True, "hf": [(0, 0)], "lk": [0]},
+                      budget_s=900 if t else 100, label=f"enum:2col:same-enum-twice:rs{rs}"))
     if t:
         for k, (cols, rs) in enumerate([([(0, 0, False), (1, 0, True), (2, 1, False)], 3), ([(3, 0, False), (2, 3, True), (0, 0, False)], 5)]):
             js.append(Job(__name__, "h_table_sym", shard={"cols": cols, "lk": 1, "hf": (0, 0), "rs": rs, "amax": 3}, budget_s=1500, per_path_timeout=30, label=f"sym:3col:{k}:rs{rs}"))
